@@ -63,6 +63,10 @@ P = {
          "(one level, all contents); nested sources are covered by kernel-evaluated examples and by the tie only (theorem labelled partial). Tie: library and CLI compaction for 8 limits incl. 1, 2, 7 bytes vs the "
          "extracted model run on the decoded source image; destination Tx.Check; source SHA-256 before/after.",
          "The nested induction (paths) is not mechanised yet: C15 is partial on the theorem side.", "DESIGN.md §8 C15"),
+ "C16": ("Batch.v models batch.run (retry loop, swap-remove, solo re-run). Proved for every batch of distinct callers and every script: every caller gets a result; nil <=> exactly one of its invocations is committed "
+         "(a successful one); error/panic <=> none; the loop terminates within length+1 rounds; swap-remove removes exactly the failing call. Tie: deterministic batches (arrival order fixed through a verif accessor) "
+         "are predicted exactly by the extracted model; free-running concurrent callers are judged by counters and recorded invocations in the database.",
+         "Which callers share a batch under the real scheduler is not modelled (any grouping is a set of batches, each covered by the theorem; batches and solo re-runs are serial write transactions).", "DESIGN.md §8 C16"),
  "C18": ("Grow.v: mmapSize covers the request; if the pre-check of the last allocation passed and the map is not larger than that allocation needs, the file after grow (with or without grow-sync) is within "
          "max(MaxSize, previous length); the unrestricted statement is REFUTED by a kernel-checked witness (known finding D7). Tie: every ErrMaxSizeReached and every file length after commit predicted by the "
          "extracted model from the real allocation events; Spec.v for the refused transaction; decoder accounting.",
